@@ -164,7 +164,7 @@ def run(ctx):
             if cur != ref:
                 same = False
                 d = common.first_diff(common.glines(ref_out), common.glines(out)) or common.first_diff(ref, cur)
-                key = common.classify(ref_out, out, text) if (ref_o == "ok" and o == "ok") else None
+                key = common.classify(ref_out, out, text) if (ref_o == "ok" and o == "ok") else common.classify_outcomes(ref_o, o, text)
                 ctx.violation("observation logs differ between two address-space layouts %s and %s: %r vs %r" % (ref_lay, lay, d[1], d[2]),
                               {"name": name, "program": text, "layouts": [list(ref_lay), list(lay)], "args": list(args),
                                "first_difference": {"line": d[0], "a": d[1], "b": d[2]}, "outcomes": [ref_o, o]}, key=key)
